@@ -32,6 +32,9 @@ func paramStr(tag string) string {
 			}
 		case part == "explicit":
 			ex = 1
+			if tn == "-" && strings.Contains(tag, "tagNum:") {
+				ex = 2 // written before tagNum: the order is part of the notation
+			}
 		case part == "set":
 			set = 1
 		case part == "openType":
@@ -306,12 +309,20 @@ func genType(r *rng, depth int) reflect.Type {
 		for i := 0; i < n; i++ {
 			ft := genType(r, depth+1)
 			tag := fmt.Sprintf("tagNum:%d", base+i)
+			if r.chance(12) && ft.Kind() != reflect.Ptr && !isChoiceStruct(ft) {
+				fs = append(fs, reflect.StructField{Name: fmt.Sprintf("F%d", i), Type: ft})
+				continue
+			}
 			if r.chance(40) {
 				ft = reflect.PtrTo(ft)
 				tag += ",optional"
 			}
 			if r.chance(15) {
-				tag += ",explicit"
+				if r.chance(50) {
+					tag = "explicit," + tag
+				} else {
+					tag += ",explicit"
+				}
 			}
 			if r.chance(10) {
 				tag += ",set"
@@ -323,6 +334,11 @@ func genType(r *rng, depth int) reflect.Type {
 		}
 		return reflect.StructOf(fs)
 	}
+}
+
+// a struct following the CHOICE convention (first field `Present int`)
+func isChoiceStruct(t reflect.Type) bool {
+	return t.Kind() == reflect.Struct && t.NumField() > 0 && t.Field(0).Name == "Present"
 }
 
 // genTagBase: the members of one struct get distinct, consecutive tag numbers from a base that exercises the
@@ -346,7 +362,7 @@ func leanParams(tag string) string {
 		tn = "some " + parts[1]
 	}
 	b := func(x string) string {
-		if x == "1" {
+		if x == "1" || x == "2" {
 			return "true"
 		}
 		return "false"
@@ -487,7 +503,8 @@ func genBer(o genOpts, w *bufio.Writer) {
 		t := prim[r.intn(len(prim))]
 		v := reflect.New(t).Elem()
 		fillValue(r, v, 0, true, 50)
-		params := r.pickStr("", "", "tagNum:0", "tagNum:30", "tagNum:31", "tagNum:128,explicit", "tagNum:5,explicit", "utf8", "ia5", "tagNum:2097151")
+		params := r.pickStr("", "", "tagNum:0", "tagNum:30", "tagNum:31", "tagNum:128,explicit", "tagNum:5,explicit", "utf8", "ia5", "tagNum:2097151",
+			"explicit,tagNum:5", "explicit,tagNum:31", "tagNum:2097152", "explicit,tagNum:268435456", "tagNum:4294967296")
 		emit(t, params, v)
 	}
 	// octet strings and character strings at the length-octet boundaries
@@ -498,6 +515,40 @@ func genBer(o genOpts, w *bufio.Writer) {
 		sv := reflect.New(asn.UTF8StringType).Elem()
 		sv.SetString(strings.Repeat("a", n))
 		emit(sv.Type(), "", sv)
+	}
+	// the identifier and length octets together outgrow eight octets: tag numbers from 2^21 with contents from 2^16
+	for _, tn := range []string{"tagNum:2097151", "tagNum:2097152", "tagNum:268435455", "tagNum:268435456,explicit", "explicit,tagNum:34359738368"} {
+		for _, n := range []int{255, 65535, 65536} {
+			v := reflect.New(asn.OctetStringType).Elem()
+			v.SetBytes(make([]byte, n))
+			emit(v.Type(), tn, v)
+		}
+	}
+	// members and elements whose own contents are exactly at a length-octet boundary
+	for _, n := range []int{127, 128, 255, 256, 257} {
+		lt := reflect.TypeOf([]asn.OctetString{})
+		lv := reflect.New(lt).Elem()
+		lv.Set(reflect.ValueOf([]asn.OctetString{make([]byte, n), {1}}))
+		emit(lt, "", lv)
+		st := reflect.StructOf([]reflect.StructField{
+			{Name: "A", Type: asn.OctetStringType, Tag: `ber:"tagNum:0"`},
+			{Name: "B", Type: reflect.TypeOf(int64(0)), Tag: `ber:"tagNum:1"`}})
+		sv := reflect.New(st).Elem()
+		sv.Field(0).SetBytes(make([]byte, n))
+		sv.Field(1).SetInt(int64(n))
+		emit(st, "", sv)
+	}
+	// members without tagNum that share a universal tag (decoded by position)
+	{
+		st := reflect.StructOf([]reflect.StructField{
+			{Name: "From", Type: reflect.TypeOf(int64(0))}, {Name: "To", Type: reflect.TypeOf(int64(0))},
+			{Name: "A", Type: asn.OctetStringType}, {Name: "B", Type: asn.OctetStringType}})
+		sv := reflect.New(st).Elem()
+		sv.Field(0).SetInt(10)
+		sv.Field(1).SetInt(20)
+		sv.Field(2).SetBytes([]byte{1})
+		sv.Field(3).SetBytes([]byte{2, 3})
+		emit(st, "", sv)
 	}
 	// all integers with boundary magnitudes
 	for _, x := range intPool {
@@ -544,6 +595,14 @@ func genBer(o genOpts, w *bufio.Writer) {
 		{reflect.TypeOf([]int64{}), "", "300a0288fffffffffffffff5"},
 		{reflect.TypeOf([]int64{}), "", "300a0288fffffffffffffff6"},
 		{reflect.TypeOf([]int64{}), "", "3088fffffffffffffff6"},
+		{reflect.TypeOf([]int64{}), "", "300a02887fffffffffffffff"},
+		{reflect.TypeOf([]int64{}), "", "300a02887ffffffffffffff0"},
+		{reflect.TypeOf(int64(0)), "explicit,tagNum:0", "a00a02887fffffffffffffff"},
+		{reflect.TypeOf(int64(0)), "", "02887fffffffffffffff"},
+		{cdrTypes["IPAddress"], "", "bfffffffffffffffff7f00"},
+		{cdrTypes["IPAddress"], "", "bfffffffffffffffff7e00"},
+		{cdrTypes["CHFRecord"], "explicit,choice", "bfffffffffffffffff7f00"},
+		{cdrTypes["SubscriptionID"], "", "30820000"},
 		{cdrTypes["CHFRecord"], "explicit,choice", "bf81480ca40a3088fffffffffffffff5"},
 		{cdrTypes["CHFRecord"], "", "bf81480ca40a3088fffffffffffffff5"},
 	} {
@@ -646,6 +705,10 @@ func (p *tyParser) params() (tag string) {
 	parts := strings.Split(p.s[p.i+1:p.i+j], ",")
 	p.i += j + 1
 	var out []string
+	if parts[2] == "2" {
+		// "explicit" written before "tagNum" in the tag string
+		out = append(out, "explicit")
+	}
 	if parts[1] != "-" {
 		out = append(out, "tagNum:"+parts[1])
 	}
